@@ -6,13 +6,15 @@
 //! `c13_dalek_decompress <b>` -> recompressed bytes of dalek's own (permissive) decompress | err (intermediate stage of from_slice).
 //! `c13_smul_u8 <a> <n>` -> scalar hex|err (`PrivateKey * u8`); `c13_serde_double <b>` -> `ok <k+k>`|`ok PANIC`|err (a PublicKey
 //! made by the derived serde `Deserialize` — NO validation — from any 32 bytes, then `k + k`).
+//! `c13_sk_wire|c13_pk_wire <b>` -> `D=<ok,key|err> P=<ok,key,consumed|err> C=<ok,key,remaining|err>`: the THREE consensus entry points
+//! (`deserialize`, `deserialize_partial`, `Decodable::consensus_decode` on a plain `&[u8]` reader) on the same bytes.
 //! Every operation that yields a key also re-parses the result with `from_slice` (closure) and answers MISMATCH otherwise.
 use crate::c17::{le_add, le_ge, le_pow2, le_small, le_sub, L_LE};
 use crate::common::*;
 use curve25519_dalek::constants::{ED25519_BASEPOINT_POINT, EIGHT_TORSION};
 use curve25519_dalek::edwards::EdwardsPoint;
 use curve25519_dalek::scalar::Scalar;
-use monero::consensus::encode::{deserialize, deserialize_partial, serialize};
+use monero::consensus::encode::{deserialize, deserialize_partial, serialize, Decodable, Encodable};
 use monero::util::key::{PrivateKey, PublicKey};
 use std::str::FromStr;
 
@@ -32,6 +34,16 @@ fn closed_sk(r: PrivateKey) -> String {
 fn serde_pk(b: &[u8]) -> Option<PublicKey> {
     let body: Vec<String> = b.iter().map(|x| x.to_string()).collect();
     serde_json::from_str::<PublicKey>(&format!("{{\"point\":[{}]}}", body.join(","))).ok()
+}
+
+/// the three consensus entry points on the same bytes (`deserialize` demands that everything is consumed; `consensus_decode` is
+/// called directly on a `&[u8]` reader, not on the `Cursor` that `deserialize_partial` builds)
+fn wire<T: Decodable + Encodable + std::fmt::Debug>(b: &[u8]) -> String {
+    let d = match deserialize::<T>(b) { Ok(k) => format!("ok,{}", hex(&serialize(&k))), Err(_) => "err".into() };
+    let p = match deserialize_partial::<T>(b) { Ok((k, n)) => format!("ok,{},{}", hex(&serialize(&k)), n), Err(_) => "err".into() };
+    let mut r: &[u8] = b;
+    let c = match T::consensus_decode(&mut r) { Ok(k) => format!("ok,{},{}", hex(&serialize(&k)), r.len()), Err(_) => "err".into() };
+    format!("D={} P={} C={}", d, p, c)
 }
 
 pub fn exec(t: &[&str]) -> Option<String> {
@@ -99,6 +111,8 @@ pub fn exec(t: &[&str]) -> Option<String> {
         ["c13_sk_show", h] => match sk(h) { Some(k) => hex(k.to_string().as_bytes()), None => e() },
         ["c13_pk_cons", h] => match deserialize_partial::<PublicKey>(&unhex(h)) { Ok((k, n)) => format!("ok {} {}", hex(&serialize(&k)), n), Err(_) => e() },
         ["c13_sk_cons", h] => match deserialize_partial::<PrivateKey>(&unhex(h)) { Ok((k, n)) => format!("ok {} {}", hex(&serialize(&k)), n), Err(_) => e() },
+        ["c13_sk_wire", h] => wire::<PrivateKey>(&unhex(h)),
+        ["c13_pk_wire", h] => wire::<PublicKey>(&unhex(h)),
         _ => return None,
     })
 }
@@ -173,6 +187,29 @@ fn sk_case(o: &mut Out, b: &[u8], fam: &str) {
     }
 }
 
+/// acceptance probe of a byte pattern: the decision is the Lean reference's (`c13_pk`: model and RFC 8032 spec side); in Rust
+/// only dalek's own decompress-recompress is compared (it knows nothing of byte patterns). Accepted patterns also go through
+/// the consensus entry points (every `every`-th through the text form too).
+fn pk_pattern(o: &mut Out, b: &[u8; 32], fam: &str, idx: usize) {
+    let r = PublicKey::from_slice(b).is_ok();
+    o.stat(&format!("pkpat.{}.{}", fam, if r { "ok" } else { "err" }));
+    let dalek = curve25519_dalek::edwards::CompressedEdwardsY(*b).decompress().map(|p| p.compress().to_bytes() == *b).unwrap_or(false);
+    o.direct(r == dalek, "c13: from_slice accepts exactly the fixed points of dalek decompress+compress", hex(b), format!("{}", r), format!("{}", dalek));
+    o.op(format!("c13_pk {}", hex(b)), true);
+    if r && idx % 4 == 0 { o.op(format!("c13_pk_wire {}", hex(b)), true); }
+    if r && idx % 16 == 0 { o.op(format!("c13_pk_str {}", hex(hex::encode(b).as_bytes())), true); }
+}
+/// a consensus-form probe of a 32-byte secret-key candidate followed by `extra` bytes: byte-comparison oracle in Rust (all three
+/// entry points accept iff value < l; `deserialize` additionally needs `extra` empty), Lean model / spec on the op line
+fn sk_wire_case(o: &mut Out, b: &[u8; 32], extra: &[u8], fam: &str) {
+    let below = !le_ge(b, &L_LE);
+    o.stat(&format!("wire.sk.{}.{}", fam, if below { "below_l" } else { "ge_l" }));
+    let mut v = b.to_vec(); v.extend_from_slice(extra);
+    let r = o.op(format!("c13_sk_wire {}", hex(&v)), true);
+    let want = if below { format!("D={} P=ok,{},32 C=ok,{},{}", if extra.is_empty() { format!("ok,{}", hex(b)) } else { "err".into() }, hex(b), hex(b), extra.len()) } else { "D=err P=err C=err".to_string() };
+    o.direct(r == want, "c13: consensus entry points (deserialize / deserialize_partial / consensus_decode) accept a secret key iff its value is < l", hex(&v), r, want);
+}
+
 pub fn run(o: &mut Out, tier: &str, seed: u64) {
     let mut rng = Rng::new(seed);
     let thorough = tier == "thorough";
@@ -208,8 +245,58 @@ pub fn run(o: &mut Out, tier: &str, seed: u64) {
     for _ in 0..1500 * scale { let b = rng.arr32(); pk_case(o, &b, "random"); }
     for _ in 0..100 * scale { let mut b = [0xffu8; 32]; b[0] = rng.byte(); b[31] = if rng.chance(1, 2) { 0x7f } else { 0xff }; pk_case(o, &b, "random_high_y"); }
 
+
+    // ---- byte-pattern families (public keys) --------------------------------------------------------------------------------
+    // A canonicity test written on BYTES (instead of recompress-and-compare) goes wrong on patterns, not on random keys.
+    {
+        let mut idx = 0usize;
+        // (P1) y just below p: [d0 >= 0xed, ff x 29, d30, 7f|ff] — for d30 = ff these are the 38 non-canonical encodings, for every
+        // other d30 the y field is < p and about half of the strings are keys. All 19 d0, a sweep of d30 (quick) / all d30 (thorough).
+        let mut d30s: Vec<u8> = vec![0x00, 0x01, 0x7f, 0x80, 0xfe, 0xff];
+        if thorough { d30s = (0..=255u8).collect(); } else { for _ in 0..6 { d30s.push(rng.byte()); } }
+        for d0 in 0xedu8..=0xff { for &d30 in &d30s { for top in [0x7fu8, 0xff] {
+            let mut b = [0xffu8; 32]; b[0] = d0; b[30] = d30; b[31] = top; pk_pattern(o, &b, "near_p_d30", idx); idx += 1;
+        } } }
+        // (P2) all ff except ONE byte k in 1..=30 (any such string has y < p), d0 around 0xed
+        for k in 1..=30usize { for d0 in [0xecu8, 0xed, 0xee, 0xff] { for top in [0x7fu8, 0xff] {
+            let vals: Vec<u8> = if thorough { vec![0x00, 0x7f, 0xfe, rng.byte() & 0xfe, rng.byte() & 0xfe] } else { vec![0xfe, rng.byte() & 0xfe] };
+            for v in vals { let mut b = [0xffu8; 32]; b[0] = d0; b[k] = v; b[31] = top; pk_pattern(o, &b, "near_p_one_byte_off", idx); idx += 1; }
+        } } }
+        // (P3) y in [2^255 - 256, p): d0 < 0xed over ff..ff7f
+        for d0 in 0x00u8..0xed { if thorough || d0 >= 0xe0 || d0 < 4 || rng.chance(1, 8) { for top in [0x7fu8, 0xff] {
+            let mut b = [0xffu8; 32]; b[0] = d0; b[31] = top; pk_pattern(o, &b, "near_p_low_byte", idx); idx += 1;
+        } } }
+        // (P4) run patterns: a run of ff / 00 from byte i to byte j over a random background; all pairs with small i and j near the
+        // top (quick) plus random pairs / all 528 pairs (thorough)
+        let mut pairs: Vec<(usize, usize)> = Vec::new();
+        if thorough { for i in 0..32 { for j in i..32 { pairs.push((i, j)); } } }
+        else {
+            for i in 0..=3usize { for j in 26..=31usize { pairs.push((i, j)); } }
+            for i in 0..=3usize { for j in i..=(i + 3) { pairs.push((i, j)); } }
+            for _ in 0..70 { let i = rng.below(32) as usize; let j = i + rng.below(32 - i as u64) as usize; pairs.push((i, j)); }
+        }
+        for &(i, j) in &pairs { for fill in [0xffu8, 0x00] { for _ in 0..(if thorough { 3 } else { 1 }) {
+            let mut b = rng.arr32(); for k in i..=j { b[k] = fill; }
+            pk_pattern(o, &b, if fill == 0xff { "run_ff" } else { "run_00" }, idx); idx += 1;
+            // the same run with the sign bit forced the other way (the run then stops inside byte 31)
+            if j == 31 { b[31] ^= 0x80; pk_pattern(o, &b, if fill == 0xff { "run_ff_sign_flipped" } else { "run_00_sign_flipped" }, idx); idx += 1; }
+        } } }
+        // (P5) VALID keys that contain runs: search random points whose encoding has >= 2 equal adjacent bytes is hopeless; instead take the
+        // accepted near-p strings above as operands of an operation (the stored bytes go through `point()` again)
+        let g = ED25519_BASEPOINT_POINT.compress().to_bytes();
+        let mut used = 0;
+        for d30 in 0u8..=255 { for d0 in [0xedu8, 0xf0, 0xff] {
+            let mut b = [0xffu8; 32]; b[0] = d0; b[30] = d30; b[31] = 0x7f;
+            if used < 12 * scale && PublicKey::from_slice(&b).is_ok() {
+                used += 1; o.stat("pkpat.near_p_as_operand");
+                o.op(format!("c13_add {} {}", hex(&b), hex(&g)), true); o.op(format!("c13_sub {} {}", hex(&g), hex(&b)), true);
+                o.op(format!("c13_smul {} {}", hex(&le_small(8)), hex(&b)), true);
+            }
+        } }
+    }
     // ---- secret keys -------------------------------------------------------------------------------------------
     let l = L_LE;
+    let lm1_early = le_sub(&l, &one);
     let mut sc_special: Vec<[u8; 32]> = vec![[0u8; 32], one, le_small(2), le_sub(&l, &le_small(2)), le_sub(&l, &one), l, le_add(&l, &one), le_add(&l, &le_small(2)),
         le_add(&l, &l), le_sub(&le_add(&l, &l), &one), [0xffu8; 32], le_sub(&[0xffu8; 32], &one)];
     for k in [8usize, 64, 128, 251, 252, 253, 254, 255] { let b = le_pow2(k); sc_special.push(le_sub(&b, &one)); sc_special.push(b); sc_special.push(le_add(&b, &one)); }
@@ -261,6 +348,37 @@ pub fn run(o: &mut Out, tier: &str, seed: u64) {
         for b in small.iter() { let mut v = b.to_vec(); let n = 1 + rng.below(4) as usize; v.extend_from_slice(&rng.bytes(n)); o.stat("cons.pk.special_with_trailing"); o.op(format!("c13_pk_cons {}", hex(&v)), true); }
         for b in [[0u8; 32], one, le_sub(&l, &one)] { let mut v = b.to_vec(); let n = 1 + rng.below(4) as usize; v.extend_from_slice(&rng.bytes(n)); o.stat("cons.sk.special_with_trailing"); o.op(format!("c13_sk_cons {}", hex(&v)), true); }
         for cut in [0usize, 1, 31] { o.stat("cons.sk.truncated"); o.op(format!("c13_sk_cons {}", hex(&one[..cut])), false); }
+    }
+    // ---- the three consensus entry points on the same bytes -------------------------------------------------------------------
+    {
+        // every enumerated scalar (around l, powers of two, every top byte over l and l-1, single-byte neighbours of l)
+        for b in &sc_special { sk_wire_case(o, b, &[], "special"); }
+        // ... the values >= l again with trailing bytes
+        for b in &sc_special { if le_ge(b, &l) && rng.chance(1, if thorough { 1 } else { 6 }) { let n = 1 + rng.below(4) as usize; let e = rng.bytes(n); sk_wire_case(o, b, &e, "special_trailing"); } }
+        // random values in [l, 2^256): l + small, l + random 128-bit, uniformly random high part, 2^252 <= v < 2^253
+        for i in 0..150 * scale {
+            let mut b = match i % 5 {
+                0 => le_add(&l, &le_small(rng.below(1 << 16))),
+                1 => { let mut d = [0u8; 32]; for k in 0..16 { d[k] = rng.byte(); } le_add(&l, &d) }
+                2 => if rng.chance(1, 2) { rand_scalar(&mut rng).to_bytes() } else { let mut d = rng.arr32(); d[31] = 0x10 | (rng.byte() & 0x0f); d } // reduced / 2^252 .. 2^253
+                3 => { let mut d = rng.arr32(); d[31] |= 0x20 << rng.below(3); d }                            // bit 253, 254 or 255 set
+                _ => { let mut d = l; let k = rng.below(32) as usize; d[k] = d[k].wrapping_add(1 + rng.below(255) as u8); d } // one byte of l changed
+            };
+            if i % 10 == 9 { b[31] |= 0x80; }
+            let e = if rng.chance(1, 2) { Vec::new() } else { let n = 1 + rng.below(4) as usize; rng.bytes(n) };
+            sk_wire_case(o, &b, &e, "random");
+        }
+        // truncated input
+        for cut in [0usize, 1, 31] { o.stat("wire.sk.truncated"); o.op(format!("c13_sk_wire {}", hex(&lm1_early[..cut])), false); }
+        // public keys: rejecting families, small-order points and valid keys, bare and with trailing bytes
+        let mut pkw: Vec<[u8; 32]> = Vec::new();
+        for i in 0..19u64 { let y = le_add(&P_LE, &le_small(i)); pkw.push(y); pkw.push(flip_sign(&y)); }
+        pkw.extend_from_slice(&neg0); pkw.extend_from_slice(&small);
+        for v in valid.iter().take(20 * scale as usize) { pkw.push(*v); }
+        for b in &pkw {
+            o.stat("wire.pk"); o.op(format!("c13_pk_wire {}", hex(b)), true);
+            if rng.chance(1, 2) { let mut v = b.to_vec(); let n = 1 + rng.below(4) as usize; v.extend_from_slice(&rng.bytes(n)); o.stat("wire.pk.trailing"); o.op(format!("c13_pk_wire {}", hex(&v)), true); }
+        }
     }
     // ---- text form: malformed strings ------------------------------------------------------------------------------
     for _ in 0..60 * scale {
@@ -361,6 +479,37 @@ pub fn run(o: &mut Out, tier: &str, seed: u64) {
         let lhs = ka * &(kp + kq); let rhs = (ka * &kp) + (ka * &kq);
         o.direct(lhs == rhs, "c13: a*(P+Q) == a*P + a*Q", format!("{} {} {}", hex(&ab), hex(&p), hex(&q)), lhs.to_string(), rhs.to_string());
     }
+    // ---- P − Q (and Q − P, P + Q) with Q the identity, the order-2 point ecff…ff7f and every small-order point ------------------
+    // Each of the four operand forms is compared SEPARATELY with dalek's own point arithmetic (a form that special-cases a
+    // self-inverse or x = 0 operand cannot hide behind the other three), and the line goes to the Lean reference.
+    {
+        let mut ps: Vec<[u8; 32]> = Vec::new();
+        for v in valid.iter().take(16 * scale as usize) { ps.push(*v); }
+        ps.push(ED25519_BASEPOINT_POINT.compress().to_bytes());
+        ps.extend_from_slice(&small);
+        let dec = |b: &[u8; 32]| curve25519_dalek::edwards::CompressedEdwardsY(*b).decompress().unwrap();
+        for p in &ps { for q in &small {
+            let (kp, kq) = (PublicKey::from_slice(p).unwrap(), PublicKey::from_slice(q).unwrap());
+            let (dp, dq) = (dec(p), dec(q));
+            o.stat("arith.sub_small_order");
+            o.op(format!("c13_sub {} {}", hex(p), hex(q)), true);
+            o.op(format!("c13_sub {} {}", hex(q), hex(p)), true);
+            let want = (dp - dq).compress().to_bytes(); let want_rev = (dq - dp).compress().to_bytes(); let want_add = (dp + dq).compress().to_bytes();
+            for (name, got) in [("P-Q", (kp - kq).to_bytes()), ("&P-&Q", (&kp - &kq).to_bytes()), ("P-&Q", (kp - &kq).to_bytes()), ("&P-Q", (&kp - kq).to_bytes())] {
+                o.direct(got == want, &format!("c13: {} with Q of small order == dalek point subtraction", name), format!("{} {}", hex(p), hex(q)), hex(&got), hex(&want));
+            }
+            for (name, got) in [("Q-P", (kq - kp).to_bytes()), ("&Q-&P", (&kq - &kp).to_bytes()), ("Q-&P", (kq - &kp).to_bytes()), ("&Q-P", (&kq - kp).to_bytes())] {
+                o.direct(got == want_rev, &format!("c13: {} with Q of small order == dalek point subtraction", name), format!("{} {}", hex(q), hex(p)), hex(&got), hex(&want_rev));
+            }
+            for (name, got) in [("P+Q", (kp + kq).to_bytes()), ("&P+&Q", (&kp + &kq).to_bytes()), ("P+&Q", (kp + &kq).to_bytes()), ("&P+Q", (&kp + kq).to_bytes())] {
+                o.direct(got == want_add, &format!("c13: {} with Q of small order == dalek point addition", name), format!("{} {}", hex(p), hex(q)), hex(&got), hex(&want_add));
+            }
+            // identities: (P − Q) + Q = P in every form; P − 0 = P; P − T2 = P + T2 for the order-2 point
+            o.direct(((kp - kq) + kq) == kp && ((&kp - &kq) + &kq) == kp && ((kp - &kq) + kq) == kp && ((&kp - kq) + kq) == kp, "c13: (P-Q)+Q == P, Q of small order, all four forms of -", format!("{} {}", hex(p), hex(q)), ((kp - kq) + kq).to_string(), kp.to_string());
+            if *q == ident { o.direct((kp - kq) == kp && (&kp - &kq) == kp && (kp - &kq) == kp && (&kp - kq) == kp, "c13: P - identity == P (all four forms)", hex(p), (kp - kq).to_string(), kp.to_string()); }
+            if (dq + dq).compress().to_bytes() == ident { o.direct((kp - kq) == (kp + kq) && (&kp - &kq) == (kp + kq) && (kp - &kq) == (kp + kq) && (&kp - kq) == (kp + kq), "c13: P - T == P + T for T = -T (identity, order-2 point), all four forms", format!("{} {}", hex(p), hex(q)), (kp - kq).to_string(), (kp + kq).to_string()); }
+        } }
+    }
     // ---- keys that did NOT come through from_slice: the derived serde Deserialize stores any 32 bytes ----------------------
     // The operator model (`Keys.keyAdd`: permissive `point()`, `none` = the `expect` panics) is compared on such keys too.
     {
@@ -388,7 +537,8 @@ pub fn run(o: &mut Out, tier: &str, seed: u64) {
     }
     neg0.clear(); sc_special.clear();
     o.notes.push("nontrivial rule: every arithmetic / text / consensus op on accepted keys; acceptance cases from the enumerated families (non-canonical y, negative zero, small order, boundary, valid, bad length) and random strings that are accepted".into());
-    o.notes.push("operators: model side = Model/KeyOps (from_slice, permissive point(), extended-coordinate arithmetic, recompression), spec side = strict decoding + reference group law; every key-valued result is re-parsed with from_slice (closure); all four Add forms of PrivateKey, Mul<u8>, TryFrom<[u8;32]>, Debug are executed".into());
+    o.notes.push("operators: model side (Model/KeyOps) = from_slice, permissive point() of the stored bytes (PANIC), then for + / - dalek's Niels-form addition transcribed separately (dalekAdd / dalekSub) against the spec side's strict decoding + Ed.add / Ed.sub; for scalar multiplication, from_private_key and the final compression the model calls the same Ed.smul / Ed.encodePt as the spec side, i.e. there the comparison is library-vs-reference only; SCALAR arithmetic: model = dalek's Scalar52 add / Montgomery mul transcribed on integers, spec = (x op y) mod l; every key-valued result is re-parsed with from_slice (closure); all four Add forms of PrivateKey, Mul<u8>, TryFrom<[u8;32]>, Debug are executed".into());
     o.notes.push("serde.* stats: a PublicKey built by the derived Deserialize is NOT validated; the stats count, per family, whether such a key is stored and what `k + k` then does (model Keys.keyAdd agrees op by op)".into());
+    o.notes.push("byte-pattern families (pkpat.*): [d0>=ed, ff x29, d30, 7f|ff] for all d0 and a sweep of d30 (thorough: all), all-ff with one byte off, y in [2^255-256, p), runs of ff / 00 from byte i to j over a random background (thorough: all 528 pairs); acceptance decided by the Lean reference, in Rust by dalek decompress+compress; accepted patterns also go through the three consensus entry points; wire.*: deserialize / deserialize_partial / consensus_decode(&[u8]) on the same bytes, byte-comparison oracle for secret keys (>= l refused by all three); arith.sub_small_order: P-Q, Q-P, P+Q for Q in the 8 small-order points, each operand form compared separately with dalek".into());
     o.notes.push("enumerated exhaustively: the 38 encodings with y in [p, 2^255); both negative-zero encodings; the 8 small-order points and their sign flips; scalars around l and powers of two, every top byte over l and l-1".into());
 }
